@@ -179,6 +179,17 @@ def body(case, stats):
         # the aggregates of a single requested phase are those of the all-phase result
         from vlib.props.c06 import _single_vs_all
         _single_vs_all(sys, spec, df, energy=True)
+        # "after any history": the phases are re-defined with other durations (other total,
+        # other shares) on the system that has just been analysed; its single-phase results
+        # must be those of a fresh system that was built with the new durations
+        spec2 = S.clone(spec)
+        spec2["phases"] = {p: d * (2.0 + i) for i, (p, d) in enumerate(spec["phases"].items())}
+        if not spec.get("_phases_last"):
+            sys.set_sys_phases(dict(spec2["phases"]))
+            df2 = B.solve(B.build(spec2, order=order), energy=True)
+            check_aggregates(spec2, Table(df2), True, None, pre="redefined.")
+            _single_vs_all(sys, spec2, df2, energy=True)
+            stats.cls("phases_redefined_after_analysis")
     stats.cls("solved")
     if spec["phases"]:
         stats.cls("with_phases")
